@@ -14,7 +14,7 @@ reset at a scheduler-chosen step.  Oracle: every outstanding call fails exactly 
 the loss reason, no timer survives, every registered callback of the connection and of
 every proxy the workload still references runs exactly once, nothing fires afterwards.
 """
-from twisted.internet import error as tierror
+from twisted.internet import defer, error as tierror
 from twisted.python.failure import Failure
 
 from simdbus import gen, net, refcodec as rc
@@ -44,7 +44,7 @@ PROBES = ['A-no-address', 'A-all-refused', 'A-second-address-used', 'A-closed-du
           'B-loss-with-pending-calls', 'B-loss-with-deadline', 'B-proxy-explicit',
           'B-proxy-introspected', 'B-proxy-by-name', 'B-two-proxies-same-object',
           'B-introspection-in-flight-at-loss', 'B-errback-issues-call', 'B-reset',
-          'B-client-disconnect', 'B-callback-cancelled', 'B-all-callbacks-cancelled-then-new-one', 'B-disconnect-callback-raises', 'B-proxy-dropped', 'B-second-connection',
+          'B-client-disconnect', 'B-callback-cancelled', 'B-all-callbacks-cancelled-then-new-one', 'B-disconnect-callback-raises', 'B-call-cancelled-by-its-owner', 'B-proxy-dropped', 'B-second-connection',
           'B-call-answered-with-error', 'B-bound-method-callback', 'B-callback-registered-twice',
           'B-callback-issues-call']
 COMPONENTS = {
@@ -409,8 +409,21 @@ def part_b(ctx):
                 return f
             d.addErrback(eb)
         c['obs'].watch(d)
+        c['d'] = d
         calls.append(c)
         sim.log('op', 'call', cid, sorted(kw))
+
+    def op_cancel_call():
+        # the owner of an outstanding call gives up on it; the loss that follows still has to
+        # clean up after it (its deadline) without telling it anything again
+        live = [c for c in calls if not c['obs'].fired and not c.get('cancelled')]
+        if not live:
+            return op_call()
+        c = live[ds.choose(len(live))]
+        c['cancelled'] = True
+        sim.probe('B-call-cancelled-by-its-owner')
+        sim.log('op', 'cancel-call', c['id'])
+        rig.call(c['d'].cancel)
 
     class Holder:
         def __init__(self, rec, label):
@@ -565,7 +578,7 @@ def part_b(ctx):
         p['cbs'].append(rec)
 
     OPS = [(op_call, 5), (op_conn_cb, 2), (op_cancel_conn_cb, 1), (op_proxy, 4), (op_drop_proxy, 0.7),
-           (op_proxy_cb, 1.5)]
+           (op_proxy_cb, 1.5), (op_cancel_call, 0.8)]
 
     def do_loss(kind=None):
         kind = kind or ds.pick(['daemon-close', 'client-disconnect', 'reset'])
@@ -628,8 +641,10 @@ def part_b(ctx):
         if n > 1:
             raise Violation('C09/call-fired-twice', 'twice', 'call %d fired %d times' % (c['id'], n))
         kind, val = c['obs'].fired[0]
-        if kind == 'err' and not val.check(tierror.ConnectionDone, tierror.ConnectionLost,
-                                           t_error.TimeOut, t_error.RemoteError):
+        if c.get('cancelled') and kind == 'err' and val.check(defer.CancelledError):
+            pass        # completed by its owner; the loss owed it nothing more
+        elif kind == 'err' and not val.check(tierror.ConnectionDone, tierror.ConnectionLost,
+                                             t_error.TimeOut, t_error.RemoteError):
             raise Violation('C09/call-wrong-failure', type(val.value).__name__,
                             'call %d failed with %r' % (c['id'], val.value))
         if c['dc'] is not None and c['dc'].active():
